@@ -49,6 +49,13 @@ def cases(tier, seed):
             for k in range(8 if tier == "quick" else 24):
                 out.append({"kind": "img", "cls": "square" if H == W else "non_square", "H": H, "W": W, "idx": idx, "seed": seed})
                 idx += 1
+    # larger and strongly non-square images (sides above 32 that are not 5-smooth, aspect ratios above 3)
+    big = [(8, 37), (33, 5), (3, 41), (35, 7), (34, 10), (34, 34)] if tier == "quick" else \
+          [(8, 37), (33, 5), (3, 41), (35, 7), (34, 10), (34, 34), (37, 33), (1, 67), (67, 1), (2, 49), (47, 6), (39, 38), (64, 5), (5, 66)]
+    for (H, W) in big:
+        for k in range(2 if tier == "quick" else 6):
+            out.append({"kind": "img", "cls": "large_or_elongated", "H": H, "W": W, "idx": idx, "seed": seed})
+            idx += 1
     # call histories inside one process: kernels with identical taps but different shapes (1xL, Lx1, axb), the same kernel on
     # different image sizes, and a kernel updated in place between two calls
     for k in range(12 if tier == "quick" else 80):
